@@ -434,17 +434,22 @@ func c11Serve(r *mc.Report, w *c11World, c c11Case) {
 			bad("no-record-the-asker-must-not-be-relayed", relaySite, fmt.Sprintf("%s offered to %s: %v", ent.node.IP(), c.Asker, err))
 		}
 	}
-	if zero && times[w.local] == 0 && netutil.CheckRelayIP(asker, w.local.node.IP()) == nil {
-		if c.Dists[0] == 0 { // asked first: nothing else can have used up the room
-			bad("local-record-offered-for-distance-0", "collectTableNodes", "distance 0 requested first, local record relayable, not offered")
-		} else {
-			r.Count("serve_local_record_crowded_out", 1)
-		}
-	}
-	candidates := 0
+	// candidates: live, relayable entries of the asked buckets; wanted: once per distinct distance their bucket covers
+	candidates, wanted := 0, 0
 	for _, ent := range w.all {
 		if ent.live && asked[ent.bucket] > 0 && netutil.CheckRelayIP(asker, ent.node.IP()) == nil {
 			candidates++
+			wanted += asked[ent.bucket]
+		}
+	}
+	if zero && times[w.local] == 0 && netutil.CheckRelayIP(asker, w.local.node.IP()) == nil {
+		switch {
+		case c.Dists[0] == 0: // asked first: nothing else can have used up the room
+			bad("local-record-offered-for-distance-0", "collectTableNodes", "distance 0 requested first, local record relayable, not offered")
+		case fromTable >= wanted && len(reply)+4+len(w.local.raw) <= c11ReplyLimit && len(enrs) < portalwire.VerifFindnodesResultLimit: // every listable table record is there (nothing was cut) and the local record would still fit: nothing crowded it out
+			bad("local-record-offered-for-distance-0", "collectTableNodes:zero-not-first-nothing-cut", fmt.Sprintf("distance 0 requested after other distances, local record relayable, all %d listable table records are in the reply (%d bytes), the local record is not", wanted, len(reply)))
+		default:
+			r.Count("serve_local_record_crowded_out", 1)
 		}
 	}
 	switch {
